@@ -3,7 +3,9 @@
 // OB / FO3 / SK / SSE, a history of partition operations applied to it, optional save + reload.
 // Dumps NiSkinPartition::partitions, triParts and BSDismemberSkinInstance::partitions after every
 // step. I/O and API calls only; no logic of the code under study is re-implemented here.
+#include <cmath>
 #include <cstdio>
+#include <fstream>
 #include <sstream>
 #define private public
 #define protected public
@@ -356,6 +358,61 @@ void run_hist(const Case& c) {
 	out << std::endl;
 }
 
+// "file": the k-th skinned shape (NiSkinInstance + NiSkinPartition) of a sample file. Prints what the
+// model needs to start from the same state (version, vertex count, triangles, the NiSkinData weights as
+// exact binary fractions m*2^e) and then the dump after loading and after every operation.
+void run_file(const Case& c) {
+	std::ostream& out = std::cout;
+	out << "I=" << std::flush;
+	const char* sdir = std::getenv("VERIF_SAMPLES");
+	std::string samples = sdir ? sdir : "/repo/tests/input";
+	Hist h;
+	std::ifstream f(samples + "/" + c.get("name"), std::ios::binary);
+	if (h.nif.Load(f) != 0) {
+		out << "LOADFAIL" << std::endl;
+		return;
+	}
+	long long want = c.geti("k"), seen = 0;
+	for (auto& sh : h.nif.GetShapes()) {
+		auto si = h.nif.hdr.GetBlock<NiSkinInstance>(sh->SkinInstanceRef());
+		if (!si || !h.nif.hdr.GetBlock(si->skinPartitionRef) || !h.nif.hdr.GetBlock(si->dataRef))
+			continue;
+		if (seen++ == want) {
+			h.shape = sh;
+			break;
+		}
+	}
+	if (!h.shape) {
+		out << "NOSHAPE" << std::endl;
+		return;
+	}
+	auto& v = h.nif.hdr.GetVersion();
+	const char* ver = v.IsOB() ? "OB" : v.IsFO3() ? "FO3" : v.IsSK() ? "SK" : v.IsSSE() ? "SSE" : "OTHER";
+	std::vector<Triangle> tris;
+	bool hastris = h.shape->GetTriangles(tris);
+	out << "FILE ver=" << ver << " nv=" << h.shape->GetNumVertices() << " hastris=" << (hastris ? 1 : 0)
+		<< " bs=" << (h.shape->HasType<BSTriShape>() ? 1 : 0) << " tris=" << str_tris(tris) << " wx=";
+	auto sd = h.nif.hdr.GetBlock(h.skinInst()->dataRef);
+	for (size_t b = 0; b < sd->bones.size(); ++b) {
+		out << (b ? ";" : "");
+		auto& vw = sd->bones[b].vertexWeights;
+		for (size_t i = 0; i < vw.size(); ++i) {
+			int e = 0;
+			double m = std::frexp(static_cast<double>(vw[i].weight), &e); // weight = m * 2^e, |m| in [0.5, 1)
+			long long mi = static_cast<long long>(std::ldexp(m, 24));       // exact: a float has 24 mantissa bits
+			out << (i ? "," : "") << vw[i].index << ":" << mi << ":" << (e - 24);
+		}
+	}
+	out << " | " << h.dump() << std::flush;
+	for (auto& op : split(c.get("ops"), '!')) {
+		if (op.empty())
+			continue;
+		out << " | " << std::flush;
+		out << apply_op(h, op) << std::flush;
+	}
+	out << std::endl;
+}
+
 int oracle_skin(int, char**) {
 	std::string line;
 	while (std::getline(std::cin, line)) {
@@ -364,6 +421,10 @@ int oracle_skin(int, char**) {
 		Case c = parse_case(line);
 		if (c.op == "hist") {
 			run_hist(c);
+			continue;
+		}
+		if (c.op == "file") {
+			run_file(c);
 			continue;
 		}
 		std::string r = c.op == "raw" ? run_raw(c) : "?";
